@@ -176,7 +176,7 @@ func c10Trial(c *rt.Ctx, sub int, r *rand.Rand, G, procs, opsPer int, yieldMode 
 					ctx := context.WithValue(context.Background(), c10CtxKey{}, id)
 					e3 := gojson.NewDecoder(strings.NewReader(`{"x":1}`)).DecodeContext(ctx, &cu)
 					e4 := gojson.NewDecoder(strings.NewReader(`{"x":2}`)).Decode(&pu)
-					return fmt.Sprint(first.A, last.A, cu.seen, pu.seen, errS(e1), errS(e2), errS(e3), errS(e4)), fmt.Sprint(id, id+1, id, "none")
+					return fmt.Sprintf("%d %d %s %s%s%s%s%s", first.A, last.A, cu.seen, pu.seen, errS(e1), errS(e2), errS(e3), errS(e4)), fmt.Sprintf("%d %d %d none", id, id+1, id)
 				}})
 			case 24, 25:
 				// a document only this call has, into one member per decoder kind, through a
